@@ -94,6 +94,9 @@ def zooSpec : List (String × String × String) :=
    ("slice_splice_insert", ":1,7,7,2,3|go:[1 7 7]", "slice_write_beyond_length_rejected"),
    ("struct_promoted_enumeration", "true,x,true|A,B,Y,ZIn|A,B,Y,ZIn", "struct_promoted_fields_not_enumerated"),
    ("nested_container_identity", "true,true,true", "bridged_value_identity_not_preserved"),
-   ("store_array_into_slice_elem", "stored:4,5|go:[{1 []}]|[[4 5]]|false|[[1 2]]|int:1", "store_array_into_slice_element_rejected")]
+   ("store_array_into_slice_elem", "stored:4,5|go:[{1 []}]|[[4 5]]|false|[[1 2]]|int:1", "store_array_into_slice_element_rejected"),
+   ("nested_array_elem_write", "v:9|go:[[1 9] [3 4]]|[[1 2]]|[{1 []}]", "nested_element_is_a_copy"),
+   ("slice_of_array_elem_write", "v:9|go:[[1 2] [3 4]]|[[1 9]]|[{1 []}]", "nested_element_is_a_copy"),
+   ("slice_of_struct_field_write", "v:5|go:[[1 2] [3 4]]|[[1 2]]|[{5 []}]", "nested_element_is_a_copy")]
 
 end OttoVerif.C16.Spec
